@@ -97,6 +97,7 @@ func (pt *InPort) Ready() bool {
 // Send sends IPs to the in-port, and is supposed to be called from the remote
 // (out-) port, to send to this in-port
 func (pt *InPort) Send(ip *FileIP) {
+	verifPoint("port.send", pt.name, ip.Path())
 	pt.Chan <- ip
 }
 
@@ -109,6 +110,7 @@ func (pt *InPort) Recv() *FileIP {
 // rptName, on the InPort
 func (pt *InPort) CloseConnection(rptName string) {
 	pt.closeLock.Lock()
+	verifPoint("port.close_connection", pt.name, rptName)
 	delete(pt.RemotePorts, rptName)
 	if len(pt.RemotePorts) == 0 {
 		close(pt.Chan)
